@@ -285,4 +285,45 @@ def r5_failed_map_consistency(chk):
     r5_failed_result_pairing(chk, rule='C19.R5')
 
 
-RULES = [r1_borrow_loop, r2_hand_over, r3_flavour, r4_requested_stay_eligible, r5_failed_map_consistency]
+def r6_argument_agreement(chk):
+    rels = sorted(r for r in chk.model.modules if r.startswith(('pysmi/borrower/', 'pysmi/compiler.py')))
+    common.argument_agreement(chk, 'C19.R6', rels, floor=3)
+
+
+
+def r7_borrower_order_is_fixed(chk):
+    """borrowers are tried in the order they were added, in every compile() call (C08.R3 under this property)"""
+    from rules.C08 import r3_ordering
+    r3_ordering(chk, rule='C19.R7')
+
+
+def r8_borrowed_status_survives_the_write(chk):
+    """a module whose status was set to borrowed keeps it when its text is written"""
+    r = cr.infer(chk.model)
+    chk.doc('C19.R8', 'the store of the compiled status in the write stage is guarded by `<name> not in <result map>`: '
+                      'a status recorded earlier for the module (borrowed) is not overwritten by compiled')
+    stores = [s_ for s_ in walk_no_nested(r.fn) if cr.subscript_store(s_) and cr.subscript_store(s_)[0] == r.result and
+              cr.status_of(cr.subscript_store(s_)[2], r.status_consts) == 'compiled']
+    chk.ob('C19.R8', 'compile/compiled-stores', len(stores) == 1, where(r.mod, r.fn), '%d stores' % len(stores))
+    for s_ in stores:
+        key = norm(cr.subscript_store(s_)[1])
+        guards = []
+        a = getattr(s_, '_parent', None)
+        child = s_
+        while a is not None and a is not r.fn:
+            if isinstance(a, ast.If) and child in a.body:
+                guards.append(norm(a.test))
+            elif isinstance(a, ast.If) and child in a.orelse and isinstance(a.test, ast.Compare) and \
+                    len(a.test.ops) == 1 and isinstance(a.test.ops[0], ast.In):
+                guards.append('%s not in %s' % (norm(a.test.left), norm(a.test.comparators[0])))
+            child, a = a, getattr(a, '_parent', None)
+        want = '%s not in %s' % (key, r.result)
+        chk.ob('C19.R8', 'compile/compiled-only-when-no-status-yet', want in guards, where(r.mod, s_),
+               'guards of the compiled store: %s (expected `%s`)' % (guards, want))
+    bor = [s_ for s_ in walk_no_nested(r.fn) if cr.subscript_store(s_) and cr.subscript_store(s_)[0] == r.result and
+           cr.status_of(cr.subscript_store(s_)[2], r.status_consts) == 'borrowed']
+    chk.ob('C19.R8', 'compile/borrowed-stores', len(bor) == 1, where(r.mod, r.fn), '%d stores of borrowed' % len(bor))
+
+
+RULES = [r1_borrow_loop, r2_hand_over, r3_flavour, r4_requested_stay_eligible, r5_failed_map_consistency, r6_argument_agreement,
+         r7_borrower_order_is_fixed, r8_borrowed_status_survives_the_write]
